@@ -376,3 +376,118 @@ Theorem C06_request_memo_refuted :
   <> spec_req req_env [([114], req_pat)] [114] [47; 97] [] req_steps.
 Proof. exact request_memo_refuted. Qed.
 Print Assumptions C06_request_memo_refuted.
+
+(* ---------------------------------------------------------------- placeholders outside the modelled sublanguage (Proofs/C06_open.v) *)
+Require Import Verif.Proofs.C06_open.
+
+(* what the executable open specification promises when it names a dictionary: the pattern read with its
+   regexes set aside, every supplied value in its placeholder's language (for a regex: the oracle table says
+   re.fullmatch), the supplied values the ONLY way of cutting the decoded path along the pattern (every
+   alternative refuted by the table; an unknown answer counts as "may match"), and the dictionary built from them *)
+Theorem C06_open_spec_meaning : forall O tbl ds target e els o kw path d sel,
+  spec_route_open O tbl ds target e els o kw = SRoute path (Some d) sel ->
+  exists src p regs caps,
+    find_src target ds = Some src /\ parse_open O src = C01.Ok (p, regs) /\ kw_caps p kw = Some caps
+    /\ path = C01.render (C01.items p) caps
+    /\ caps_in (map (lang_must O tbl) regs) (C01.star p) (C01.items p) caps = true
+    /\ all_decs_open (map (lang_may O tbl) regs) (C01.star p) (C01.items p) path = [caps]
+    /\ d = C01.mk_dict (C01.items p) (C01.star p) caps.
+Proof. exact spec_route_open_meaning. Qed.
+Print Assumptions C06_open_spec_meaning.
+
+(* where C01 reads a pattern, the open reading finds the same literals, names and remainder *)
+Theorem C06_open_parse_agrees : forall O d src p, C01.parse_core O (Some d) src = C01.Ok p ->
+  exists regs, parse_open O src = C01.Ok (erase_pat p, regs).
+Proof. exact parse_open_agrees. Qed.
+Print Assumptions C06_open_parse_agrees.
+
+(* with truthful languages the open enumeration of decompositions is C01's declarative one *)
+Theorem C06_open_enumeration_faithful : forall O st its langs s,
+  Forall2 same_lang langs (hole_langs O its) ->
+  all_decs_open langs st its s = C01.all_decs O st its s.
+Proof. exact all_decs_open_faithful. Qed.
+Print Assumptions C06_open_enumeration_faithful.
+
+(* for a modelled pattern the open specification's hypothesis is enough: when the supplied values are the only
+   way of cutting the path, the compiled pattern finds exactly them (and they lie in the placeholders' languages) *)
+Theorem C06_only_way_match : forall O p caps,
+  only_way (hole_langs O (C01.items p)) (C01.star p) (C01.items p) caps = true ->
+  C01.match_pat O p (C01.render (C01.items p) caps) = Some (C01.mk_dict (C01.items p) (C01.star p) caps)
+  /\ C01.caps_ok O (C01.star p) (C01.items p) caps = true.
+Proof. exact only_way_match. Qed.
+Print Assumptions C06_only_way_match.
+
+(* the round trip under the weakest hypothesis: no separability condition, only "no other way" *)
+Theorem C06_route_roundtrip_only_way : forall O p kw u caps,
+  generate (to_pattern p) kw = Ok u -> u <> [] -> kw_caps p kw = Some caps ->
+  only_way (hole_langs O (C01.items p)) (C01.star p) (C01.items p) caps = true ->
+  exists d, spec_dict p kw = Some d /\ roundtrip O p kw = Some d.
+Proof. exact route_roundtrip_only_way. Qed.
+Print Assumptions C06_route_roundtrip_only_way.
+
+(* ---------------------------------------------------------------- remainder followed by extra elements (Proofs/C06_b.v) *)
+Require Import Verif.Proofs.C06_b.
+
+(* text level: normal segments joined by '/', then the suffix route_url appends for normal extra elements
+   (one '/' unless what stands before already ends with one), split again: the segments followed by the elements *)
+Theorem C06_remainder_with_elements_normal : forall pre ts ets,
+  Forall normal_seg ts -> Forall normal_seg ets ->
+  split_path_info (join [47] ts ++ elements_suffix (pre ++ join [47] ts) ets) = ts ++ ets.
+Proof. exact remainder_with_elements_normal. Qed.
+Print Assumptions C06_remainder_with_elements_normal.
+
+(* end to end: a remainder supplied as a sequence of normal segments, normal extra elements: the route matches
+   its own route_path and the remainder comes back as the supplied segments followed by the elements *)
+Theorem C06_route_path_remainder_then_elements : forall O dflt src p e rs n els o kw P hc r ets l shown ts,
+  C01.parse_core O dflt src = C01.Ok p ->
+  Verif.Proofs.C17.wf_query (o_query o) -> Verif.Proofs.C17.wf_anchor (o_anchor o) ->
+  assoc n rs = Some (to_pattern p) -> route_path [] e rs n els o kw = Ok P ->
+  C01.star p = Some r -> kw_caps p kw = Some (hc ++ [join [47] ts]) ->
+  length hc = length (C01.hole_names (C01.items p)) ->
+  assoc r kw = Some (KSeq l shown) -> map_opt spec_text l = Some ts ->
+  Forall normal_seg ts -> spec_elements els = Some ets -> Forall normal_seg ets ->
+  let caps' := hc ++ [join [47] ts ++ elements_suffix (C01.render (C01.items p) (hc ++ [join [47] ts])) ets] in
+  C01.caps_ok O (C01.star p) (C01.items p) caps' = true -> sep_val O (C01.star p) (C01.items p) caps' = true ->
+  exists base qt f pi d,
+    cut_ref P = (base, qt, f) /\ wsgi_path_info (e_script e) base = Some pi
+    /\ match_back O p pi = Some d /\ In (r, C01.MSegs (ts ++ ets)) d.
+Proof. exact route_path_remainder_then_elements. Qed.
+Print Assumptions C06_route_path_remainder_then_elements.
+
+(* ---------------------------------------------------------------- the generator closure translated from the source (Proofs/C06_gen.v) *)
+Require Import Verif.Gen.Code_C06 Verif.Proofs.C06_gen.
+
+(* one iteration of the translated loop `for k, v in dict.items()` = one step of the reference model: quote the
+   value (bytes decoded, the remainder's sequence element-wise, anything else stringified), store it, go on *)
+Theorem C06_gen_body_is_model : forall sf star x acc K c,
+  gen_generator_body sf star x acc K c = step_model sf star x acc K c.
+Proof. exact gen_body_is_model. Qed.
+Print Assumptions C06_gen_body_is_model.
+
+(* generated = model for the whole closure (loop + `gen % newdict`), for every cache state *)
+Theorem C06_gen_generator_is_model : forall sf star tpl kw c,
+  gen_generator sf star tpl kw c = generator_model sf star tpl kw c.
+Proof. exact gen_generator_is_model. Qed.
+Print Assumptions C06_gen_generator_is_model.
+
+(* the reference closure is what the cache-threaded Route.generate of the property theorems runs *)
+Theorem C06_generate_ck_closure : forall sf c g kw,
+  generate_ck sf c g kw =
+  match gen_template g with
+  | Err e => (Err e, c)
+  | Ok tpl => generator_model sf (p_star g) tpl kw c
+  end.
+Proof. exact generate_ck_closure. Qed.
+Print Assumptions C06_generate_ck_closure.
+
+(* the extracted runner answers the history stream with the translated program; it answers as the reference runner *)
+Theorem C06_run_generated_is_model : forall o d calls,
+  run_hist gen_generator o d calls = run_hist generator_model o d calls.
+Proof. exact run_generated_is_model. Qed.
+Print Assumptions C06_run_generated_is_model.
+
+(* history independence for the translated program: any sequence of generations from an empty cache *)
+Theorem C06_generated_history_independent : forall g calls,
+  history_g (gen_generator segment_key_stringified) [] g calls = map (generate g) calls.
+Proof. exact generated_history_independent. Qed.
+Print Assumptions C06_generated_history_independent.
